@@ -347,6 +347,9 @@ class CallMixin(object):
     yield st, result
 
   def contract_node(self, c):
+    if c.source:
+      import textwrap
+      return ast.parse(textwrap.dedent(c.source)).body[0]
     mi = self.world.module(c.module)
     node = mi.find(c.local_name)
     if node is None:
